@@ -1430,6 +1430,32 @@ def m_array_into_iter(eng, st, args, info):
     return None
 
 
+def m_array_map(eng, st, args, info):
+    """<[T; N]>::map(f) on an array of known elements: f applied element by element, in order"""
+    if len(args) != 2 or args[0][0] != "array" or len(args[0][1]) > 8 or args[1][0] not in ("closure", "fn"):
+        return None
+    states = [(st, [])]
+    for e in args[0][1]:
+        nxt = []
+        for s, acc in states:
+            for s2, r in eng.call_value(s.fork() if len(states) > 1 else s, args[1], [e], info["depth"]):
+                if r[0] in ("panic", "loopback"):
+                    nxt.append((s2, r))
+                else:
+                    nxt.append((s2, acc + [r]))
+        done = [(s, a) for s, a in nxt if isinstance(a, tuple)]
+        states = [(s, a) for s, a in nxt if isinstance(a, list)]
+        if done:
+            # some path ended inside f (a panic): those are returned as they are, the others are kept opaque from here on
+            return done + m_array_map_rest(eng, states, args, info)
+    return [(s, ("array", tuple(a))) for s, a in states]
+
+
+def m_array_map_rest(eng, states, args, info):
+    # paths that already ended (a panic inside f) are returned as they are; the others cannot be continued element-wise from here: keep them opaque
+    return [(s, ("app", "core::array::map", (args[0], args[1]))) for s, a in states]
+
+
 def m_array_iter_next(eng, st, args, info):
     if not args or args[0][0] != "ref":
         return None
@@ -1819,6 +1845,7 @@ DEFAULT_MODELS = {
     "core::cmp::Ordering::then": m_then,
     "core::iter::traits::iterator::Iterator::any": m_iter_any,
     "core::array::iter::into_iter": m_array_into_iter,
+    "core::array::map": m_array_map,
     "core::char::convert::from": m_char_from,
     "<core::array::iter::IntoIter<T, N> as core::iter::traits::iterator::Iterator>::next": m_array_iter_next,
     "core::intrinsics::discriminant_value": m_discriminant_value,
